@@ -131,7 +131,7 @@ def stable_dt(device):
 # ----------------------------------------------------------------------------- drives
 
 
-def make_vector_potential(aspec, device, field_units):
+def make_vector_potential(aspec, device, field_units, t_total=None):
     """Applied vector potential from a drive spec:
     {"kind": "zero" | "float" | "constant" | "gauge_param" | "ramp" | "scale_fn", "B": float, ...}"""
     import tdgl
@@ -139,6 +139,10 @@ def make_vector_potential(aspec, device, field_units):
 
     k = aspec["kind"]
     lu = device.length_units
+    if "tmax" in aspec:
+        # ramps last a generated fraction of the run when the run's length is known (so that many of them end within it),
+        # an absolute time otherwise
+        aspec = dict(aspec, tmax=float(aspec["tmax_frac"]) * float(t_total) if (t_total and aspec.get("tmax_frac")) else aspec["tmax"])
     if k == "zero":
         return 0.0
     if k == "float":
@@ -213,7 +217,7 @@ def currents_at(cspec, t, t_total=None):
     # "generic": arbitrary floats (the last one minus the float sum of the others) instead of multiples of a quantum
     ex = cspec["generic"] if cspec.get("generic") else exact_currents(cspec)
     if cspec["kind"] == "dict":
-        return {n: float(v) for n, v in ex.items()}
+        return {n: (np.float64(v) if cspec.get("numpy") else float(v)) for n, v in ex.items()}
     f = _profile(cspec.get("profile", "ramp"), _t0(cspec, t_total))(t)
     out = {n: float(v) * f for n, v in ex.items()}
     sh = cspec.get("shift")
@@ -222,6 +226,8 @@ def currents_at(cspec, t, t_total=None):
         amount = float(Fraction(cspec["quantum"]) * int(sh["mult"])) * g
         out[sh["to"]] = out[sh["to"]] + amount
         out[sh["from"]] = out[sh["from"]] - amount
+    if cspec.get("numpy"):
+        out = {n: np.float64(v) for n, v in out.items()}
     return out
 
 
